@@ -239,6 +239,14 @@ struct Dumper {
       if (auto *M = dyn_cast<CXXMethodDecl>(ME->getMemberDecl()))
         o["member_fn"] = fid(M);
     }
+    if (auto *DM = dyn_cast<CXXDependentScopeMemberExpr>(S)) {
+      o["dep_member"] = DM->getMember().getAsString();
+      o["arrow"] = DM->isArrow();
+    }
+    if (auto *UL = dyn_cast<UnresolvedLookupExpr>(S))
+      o["dep_name"] = UL->getName().getAsString();
+    if (auto *UM = dyn_cast<UnresolvedMemberExpr>(S))
+      o["dep_member"] = UM->getMemberName().getAsString();
     if (auto *DR = dyn_cast<DeclRefExpr>(S)) {
       auto *D = DR->getDecl();
       o["ref"] = D->getQualifiedNameAsString();
